@@ -145,6 +145,10 @@ pub const ILL_TYPED_TEXTS: &[(&str, &str)] = &[
     ("range past the maximum of the element type", "pub fn main(a: u8) -> [u8; 3] {\n  254..257\n}\n"),
     ("range past the maximum of a signed element type", "pub fn main(a: u8) -> [i8; 3] {\n  126..129\n}\n"),
     ("annotated range past the maximum", "pub fn main(a: u8) -> u8 {\n  let r: [u8; 2] = 255..257;\n  r[0] + a\n}\n"),
+    ("unused private fn after a pub struct", "pub struct S { a: u8 }\nfn unused(x: u8) -> u8 {\n  x\n}\npub fn main(x: u8) -> u8 {\n  x\n}\n"),
+    ("unused private fn after a pub enum", "pub enum E { A, B }\nfn unused(x: u8) -> u8 {\n  x\n}\npub fn main(x: u8) -> u8 {\n  x\n}\n"),
+    ("unused private fn after a pub const", "pub const K: u8 = 1u8;\nfn unused(x: u8) -> u8 {\n  x + K\n}\npub fn main(x: u8) -> u8 {\n  x\n}\n"),
+    ("unused private fn between pub items", "pub fn main(x: u8) -> u8 {\n  x\n}\npub struct S { a: u8 }\nstruct T { b: u8 }\nfn unused(t: T) -> u8 {\n  t.b\n}\n"),
     ("enum pattern arity", "enum E { A, B(u8) }\npub fn main(e: E, x: u8) -> u8 {\n  match e {\n    E::A => x,\n    E::B(a, b) => a,\n  }\n}\n"),
     ("enum pattern of another enum", "enum E { A, B(u8) }\nenum F { A, B(u8) }\npub fn main(e: E, x: u8) -> u8 {\n  match e {\n    F::A => x,\n    F::B(a) => a,\n  }\n}\n"),
     ("struct pattern of another struct", "struct S { a: u8 }\nstruct T { a: u8 }\npub fn main(s: S, x: u8) -> u8 {\n  let T { a } = s;\n  a + x\n}\n"),
